@@ -121,7 +121,7 @@ def run(ctx):
         if diff:
             mism.append(dict(cr.mismatches[-1], kind="whitespace"))
         if d is None or d["error_num"] != 0 or d["data"] != b"whitespace":
-            fails.append({"why": "re-armoring with whitespace (body unchanged) was refused: %s" % (d and (d["error_num"], d["error_str"]))})
+            fails.append({"why": "re-armoring with whitespace (body unchanged) was refused: %s" % (d and (d["error_num"], d["error_str"]),)})
     ctx.log("splices")
     # splices of two credentials at every field boundary (same options so that lengths line up, and different ones)
     for i in range(len(bases)):
@@ -161,6 +161,35 @@ def run(ctx):
     if ctx.thorough:
         k2 = bytearray(key); k2[31] ^= 4; variants.append(("byte31", bytes(k2)))
         k2 = bytearray(key); k2[32] ^= 4; variants.append(("byte32", bytes(k2)))
+    # long key files (munged accepts any length >= 32): a difference beyond the first KiB must matter too
+    longkey = bytes(rng.getrandbits(8) for _ in range(3000))
+    lv = []
+    for off in (1023, 1024, 1025, 2047, 2999):
+        k2 = bytearray(longkey); k2[off] ^= 1
+        lv.append(("long-key-byte%d" % off, bytes(k2)))
+    lv.append(("long-key-truncated-to-1024", longkey[:1024]))
+    if not ctx.thorough:
+        lv = [lv[1], lv[4], lv[5]]
+    a = credcorr.CredRig(ctx, exe, orc, key=longkey, tag="c02la")
+    for (vn, vk) in lv:
+        b = credcorr.CredRig(ctx, exe, orc, key=vk, tag="c02lb")
+        if not (a.ok and b.ok):
+            ctx.violation("daemon does not start for the long-key cases", {"obligation": "start"}, found_input=False)
+            break
+        for src, dst in ((a, b), (b, a)):
+            r, _ = src.encode_both(uid=9, gid=9, cipher=4, mac=5, zip_=0, data=b"minted under another long key")
+            if r is None or r["error_num"] != 0:
+                continue
+            d, mm, diff = dst.decode_both(r["data"], uid=1, gid=1)
+            ctx.count(("foreign-long", vn, src is a))
+            dist["foreign-key"] = dist.get("foreign-key", 0) + 1
+            if diff:
+                mism.append(dict(dst.mismatches[-1], kind="foreign-long"))
+            if d is None or d["error_num"] in (0,) + SOFT or disclosed(d):
+                fails.append({"why": "credential minted under a 3000-byte key differing by %s was not refused cleanly: %s"
+                                     % (vn, d and (d["error_num"], d["error_str"], d["data"][:20]),), "variant": vn})
+        b.stop()
+    a.stop()
     a = credcorr.CredRig(ctx, exe, orc, key=key, tag="c02a")
     for (vn, vk) in variants:
         b = credcorr.CredRig(ctx, exe, orc, key=vk, tag="c02b")
